@@ -97,7 +97,7 @@ def tree_cases(tier, seed, flags):
     cs += gens.g_fixtures(flags=flags)
     cs += gens.g_ent_random(seed, 300 if q else 3000, flags=flags)
     cs += gens.g_mutations(seed, 1500 if q else 15000, flags=flags)
-    cs += gens.g_long(flags=flags)
+    cs += gens.g_long(flags=flags) + gens.g_api_shapes(flags=flags)
     # text runs made of every piece sequence (literals, CDATA incl. empty, references, empty entities)
     pieces = gens.g_pieces_text(2 if q else 3)
     cs += [Case(c.data, flags, True, meta=c.meta) for c in pieces]
@@ -110,6 +110,11 @@ def c03_cases(tier, seed):
     cs += gens.g_fixtures(flags="nc")
     cs += [Case(c.data, "nc", True, meta=c.meta) for c in gens.g_cr_in_misc()]
     cs += gens.g_ns_entity_sibling(flags="nc")
+    # a character-data entity that references a markup entity: the nodes of the inner entity are nodes, not text
+    cs.append(Case("<!DOCTYPE r [<!ENTITY i '<b/><!--c--><?p v?>'><!ENTITY o 'x &i; y'>]><r>&o;</r>", "nc", True,
+                   meta={"gen": "text-entity-over-markup", "expect_content": ["Q 1 - x72", "Q 3 - x62", "C 4 x63", "K 5 x70 x76"]}))
+    cs.append(Case("<!DOCTYPE r [<!ENTITY item '<i/>'><!ENTITY alias '&item;'>]><r>&alias;&alias;</r>", "nc", True,
+                   meta={"gen": "text-entity-over-markup", "expect_content": ["Q 1 - x72", "Q 2 - x69", "Q 3 - x69"]}))
     # the XML declaration with every kind of whitespace after '<?xml' (D12)
     for ws in (" ", "\t", "\n", "\r", "\r\n", " \t"):
         cs.append(Case("<?xml" + ws + "version='1.0'?><a/>", "nc", True,
@@ -327,6 +332,13 @@ def illformed_catalogue():
     W = "<r><a>t</a><b k='v'/></r>"
     out = [
         ("<r><a>t</b></r>", "mismatched end tag"),
+        ("<a/><!DOCTYPE a>", "DOCTYPE after the root element"),
+        ("<a/>\n<!DOCTYPE a []>", "DOCTYPE after the root element"),
+        ("<a></a><!--c--><!DOCTYPE a [<!ENTITY e 'v'>]>", "DOCTYPE after the root element"),
+        ("<!DOCTYPE a><!DOCTYPE a><a/>", "two DOCTYPE declarations"),
+        ("<!DOCTYPE a><a/><!DOCTYPE a>", "two DOCTYPE declarations"),
+        ("<a><!DOCTYPE a></a>", "DOCTYPE inside the root element"),
+        ("<!--c--><?p?><!DOCTYPE a><?xml version='1.0'?><a/>", "XML declaration after the DOCTYPE"),
         ("<r><a>t</a>", "missing end tag"),
         ("<r></r></r>", "stray end tag"),
         ("<r><p:a xmlns:p='u'></a></r>", "end tag prefix differs"),
@@ -578,6 +590,7 @@ def api_docs(tier, seed, flags):
     cs += gens.g_cst(seed, 250 if q else 2500, flags=flags, renderings=1, hoist=True, size=10)
     cs += gens.g_fixtures(flags=flags)
     cs += gens.g_long(flags=flags, counts=[2, 3, 16, 17, 33])
+    cs += gens.g_api_shapes(flags=flags)
     if "l" in flags:
         cs += gens.g_same_uri(flags)
     return cs
@@ -878,8 +891,14 @@ def c16_cases(tier, seed):
     extra = ["<!DOCTYPE r><r/>", "<!DOCTYPE r []><r/>", "<?xml version='1.0'?><!DOCTYPE r><r/>", "<!--c--><!DOCTYPE r><r/>",
              "<r><!-- <!DOCTYPE x> --></r>", "<r><![CDATA[<!DOCTYPE x>]]></r>", "<r a='<!DOCTYPE'/>", "<r><?p <!DOCTYPE x>?></r>",
              "<r>&lt;!DOCTYPE</r>", "<!DOCTYPE r SYSTEM 'x'><r/>", " <!DOCTYPE r><r/>", "<!DOCTYPE\nr><r/>", "<!DOCTYPE\tr [<!ENTITY e 'xxxx'>]><r a='&e;&e;'>&e;&e;</r>", "<!DOCTYPE\r\nr><r/>",
-             "<!--c--> <?p?>\n<!DOCTYPE r [<!ENTITY e 'xxxxxxxx'>]><r>&e;&e;&e;</r>", "\ufeff<?xml version='1.0'?><!--c--><!DOCTYPE r><r/>", "<!DOCTYPE r [<!ENTITY e 'v'>]><r>&e;</r>", "<!DOCTYPE", "<!DOCTYPE>"]
+             "<!--c--> <?p?>\n<!DOCTYPE r [<!ENTITY e 'xxxxxxxx'>]><r>&e;&e;&e;</r>", "\ufeff<?xml version='1.0'?><!--c--><!DOCTYPE r><r/>", "<!DOCTYPE r [<!ENTITY e 'v'>]><r>&e;</r>", "<!DOCTYPE", "<!DOCTYPE>",
+             # a DOCTYPE where none may stand: an error under both option values (the SAME error where the property says so)
+             "<a/><!DOCTYPE a>", "<a/>\n<!DOCTYPE a []>", "<a></a><!--c--><!DOCTYPE a [<!ENTITY e 'v'>]>", "<!DOCTYPE a><!DOCTYPE a><a/>",
+             "<!DOCTYPE a><a/><!DOCTYPE a>", "<a><!DOCTYPE a></a>", "<a/><?p?> <!DOCTYPE a>"]
     base += [Case(s, "", True, meta={"gen": "doctype-forms"}) for s in extra]
+    # DOCTYPE-free text with references / CR next to non-ASCII characters: the same text under both option values
+    base += [Case(s, "", True, meta={"gen": "no-doctype-text"}) for s in
+             ("<a>Müller &amp; Söhne</a>", "<a>&#65;éééééééééééé</a>", "<a>é\rü\r\n中</a>", "<a k='é&amp;ü\r'>ü&#x20AC;</a>", "<a>😀&lt;😀\r</a>", "<a><![CDATA[é\r]]>&#233;</a>")]
     # errors of DOCTYPE-free documents must be the same error at the same position under both option values
     base += [Case(s, "", True, meta={"gen": "no-doctype-errors"}) for s in
              ("<a>&x;</a>", "<a b='&x;'/>", "<a>t&x;u</a>", "<a>\n\n  &undefined;</a>", "<a>&#;</a>", "<a><b>&x;</b></a>", "<a>&amp;&x;</a>", "<a b='1' b='2'/>", "<a></b>")]
@@ -1086,7 +1105,9 @@ def c10_extra(tier, seed, harness_rel, harness_dbg):
         for i, head in bad[:3]:
             fails.append({"why": "the read-API battery does not return normally under the debug build (overflow / debug assertion): " + head,
                           "family": "api-battery-debug-build", "input": small[i].data.decode("utf-8", "replace")[:300], "input_hex": small[i].data.hex(), "flags": small[i].flags})
-    d = 20000 if q else 100000
+    # the batteries behind 'n' and 'a' are quadratic on these shapes (descendants().count() and the sibling / ancestor axes of
+    # every node): 20 000 takes 40 s, 100 000 does not finish within any reasonable limit
+    d = 20000 if q else 30000
     fams = [("deep-%d-api" % d, b"<a>" * d + b"</a>" * d, "nat"),
             ("wide-%d-api" % d, b"<r>" + b"<a/>" * d + b"</r>", "nat"),
             ("deep-%d-debug" % (9000 if q else 12000), b"<a>" * (9000 if q else 12000) + b"</a>" * (9000 if q else 12000), "g"),
@@ -1095,7 +1116,7 @@ def c10_extra(tier, seed, harness_rel, harness_dbg):
     for name, data, flags in fams:
         if flags == "t" and len(data) > 40000:
             data = ("<r>" + "é中\n" * 1500 + "</r>").encode()    # text_pos_at for every offset is quadratic
-        res, dt = run_child(harness_rel, data, flags=flags, timeout=300)
+        res, dt = run_child(harness_rel, data, flags=flags, timeout=900)
         info.append({"family": name, "result": res, "seconds": round(dt, 2), "bytes": len(data)})
         if res != "ok":
             fails.append({"why": "API scale family %s: %s" % (name, res), "family": name, "bytes": len(data)})
@@ -1219,14 +1240,14 @@ defprop("C01", "proof", {"R"}, c01_cases, oracle=oracles.o_total, extra=c01_extr
         nontrivial=lambda c, l: len(c.data) >= 3,
         rule="exhaustive meta-alphabet strings (+ embedded in content / attribute), token strings, every prefix of the fixtures, seeded mutations, entity graphs, random documents, option sweep; non-trivial = input of >= 3 bytes; distinct by (input, options)",
         technique="Coq model + theorems (no-panic/termination lemmas) + model/impl correspondence + isolated scale runs")
-defprop("C02", "proof", {"R", "N"}, lambda t, s: tree_cases(t, s, "n"), oracle=oracles.o_wf_tree,
+defprop("C02", "proof", {"R", "N", "NK"}, lambda t, s: tree_cases(t, s, "n"), oracle=oracles.o_wf_tree,
         nontrivial=lambda c, l: rxlib.result_class(l) == "ok" and int(l[0].split(" ")[2]) >= 4,
         rule="exhaustive token strings x 6 entity tables (plain and wrapped in a root), random documents with hoisting, fixtures, entity graphs, mutations; non-trivial = accepted with >= 4 nodes; distinct by link table",
         technique="Coq proof of the arena/tree invariant + correspondence")
-defprop("C03", "proof", {"R", "N", "Q", "K", "C"}, c03_cases, oracle=oracles.o_expected_content(("Q", "K", "C")),
+defprop("C03", "proof", {"R", "N", "NK", "Q", "K", "C"}, c03_cases, oracle=all_oracles(oracles.o_expected_content(("Q", "K", "C")), oracles.o_misc_verbatim),
         rule="random abstract documents x 4..8 renderings (layout, quotes, BOM, declaration, DOCTYPE forms), fixtures; non-trivial = accepted; distinct by dump",
         technique="Coq model + lexer/builder lemmas (partial) + three-way correspondence (impl / model / reference semantics)")
-defprop("C04", "proof", {"R", "N", "X"}, c04_cases, oracle=all_oracles(oracles.o_text_pieces, oracles.o_expected_content(("X",))),
+defprop("C04", "proof", {"R", "N", "NK", "X"}, c04_cases, oracle=all_oracles(oracles.o_text_pieces, oracles.o_expected_content(("X",))),
         rule="exhaustive piece sequences over a 19-piece alphabet at three sibling positions + sampled longer ones + random documents; non-trivial = accepted; distinct by dump",
         technique="Coq proof of the text decoding machine + correspondence")
 defprop("C05", "proof", {"R", "A"}, c05_cases, oracle=all_oracles(oracles.o_attr_pieces, oracles.o_expected_content(("A",)), oracles.o_must_reject),
@@ -1235,7 +1256,7 @@ defprop("C05", "proof", {"R", "A"}, c05_cases, oracle=all_oracles(oracles.o_attr
 defprop("C06", "proof", {"R", "Q", "A", "S"}, c06_cases, oracle=oracles.o_expected_content(("Q", "A", "S")), extra=c06_extra,
         rule="all trees of <= 2 (quick) / 3 (thorough) elements x 7 declaration choices x 4 prefixes, declaration pairs, prefixed attributes, random documents; non-trivial = accepted; distinct by dump",
         technique="Coq proof of scope refinement + correspondence")
-defprop("C07", "proof", {"R", "N", "Q", "A", "S", "K", "C", "X"}, c07_cases, oracle=all_oracles(oracles.o_expected_content(oracles.CONTENT), oracles.o_wf_tree),
+defprop("C07", "proof", {"R", "N", "NK", "Q", "A", "S", "K", "C", "X"}, c07_cases, oracle=all_oracles(oracles.o_expected_content(oracles.CONTENT), oracles.o_wf_tree),
         rule="random documents, each rendered inline and with random hoistings of content and attribute substrings into (nested, repeated, doubly declared) entities; non-trivial = accepted and uses >= 1 entity",
         nontrivial=lambda c, l: rxlib.result_class(l) == "ok" and b"<!ENTITY" in c.data,
         technique="Coq lemmas (attribute half, builder half; partial) + metamorphic correspondence")
@@ -1250,7 +1271,7 @@ defprop("C09", "proof", {"R", "E", "X", "A"}, c09_cases, oracle=oracles.o_entiti
 defprop("C10", "proof", None, c10_cases, oracle=oracles.o_total, extra=c10_extra,
         rule="every battery (links, axes, iterators with all F/B words <= 4 and nth/len scripts, lookups, identity, text_pos_at for offsets 0..len+2, Debug/Display into a sink) on enumerated and random documents",
         technique="Coq model of the read API (panic sites explicit) + correspondence + isolated scale runs")
-defprop("C11", "proof", {"R", "N", "AX", "AE", "AH", "AT", "AR", "D"}, lambda t, s: api_docs(t, s, "ncad"), oracle=all_oracles(oracles.o_wf_tree, oracles.o_navigation),
+defprop("C11", "proof", {"R", "N", "NK", "AX", "AE", "AH", "AT", "AR", "D"}, lambda t, s: api_docs(t, s, "ncad"), oracle=all_oracles(oracles.o_wf_tree, oracles.o_navigation),
         rule="every node of enumerated token-string documents, random documents and fixtures x every axis, element variant, text/tail, and every F/B word <= 4 plus nth/len scripts on the four double-ended iterators",
         technique="Coq proof that the iterator state machines implement the deque specification + correspondence")
 defprop("C12", "proof", {"R", "L", "LQ", "LB"}, lambda t, s: api_docs(t, s, "ncl"), oracle=oracles.o_lookups,
